@@ -14,23 +14,23 @@ import (
 // every write index of the output).
 
 type c14Case struct {
-	Forest  model.Forest  `json:"forest"`
+	Forest  model.Forest   `json:"forest"`
 	Sp      model.Spelling `json:"spelling"`
-	Op      string        `json:"op"`    // output walk mkdir verify
-	Mode    string        `json:"mode"`  // text noiter json yaml toml dryrun (output); "" otherwise
-	Entry   string        `json:"entry"` // md | root
-	Branch  *model.Branch `json:"branch,omitempty"`
-	Massive bool          `json:"massive,omitempty"`
+	Op      string         `json:"op"`    // output walk mkdir verify
+	Mode    string         `json:"mode"`  // text noiter json yaml toml dryrun (output); "" otherwise
+	Entry   string         `json:"entry"` // md | root
+	Branch  *model.Branch  `json:"branch,omitempty"`
+	Massive bool           `json:"massive,omitempty"`
 	// the fault; exactly one of reader/writer is set when replaying a single fault point
 	Reader *c14Reader `json:"reader,omitempty"`
 	Writer *c14Writer `json:"writer,omitempty"`
 }
 
 type c14Reader struct {
-	Kind int `json:"kind,omitempty"` // which well-known error the injected error wraps (ops.FaultErr)
-	IO   int `json:"io,omitempty"`   // 1: the reader also implements io.WriterTo
-	At   int `json:"at"`
-	Mode int `json:"mode"` // 0: (0,E) after At bytes, sticky; 1: (n,E) with the last chunk; 2: (0,E) once, then the reader works again
+	Kind  int `json:"kind,omitempty"` // which well-known error the injected error wraps (ops.FaultErr)
+	IO    int `json:"io,omitempty"`   // 1: the reader also implements io.WriterTo
+	At    int `json:"at"`
+	Mode  int `json:"mode"` // 0: (0,E) after At bytes, sticky; 1: (n,E) with the last chunk; 2: (0,E) once, then the reader works again
 	Chunk int `json:"chunk,omitempty"`
 }
 
@@ -216,7 +216,9 @@ func c14All(t failer, col *collector, c c14Case, stride int) {
 			}
 		}
 	}
-	col.sample(func() any { return map[string]any{"doc": string(cs.Doc), "op": c.Op, "mode": c.Mode, "entry": c.Entry, "massive": c.Massive, "writes": res.Writes, "bytes": len(cs.Doc)} })
+	col.sample(func() any {
+		return map[string]any{"doc": string(cs.Doc), "op": c.Op, "mode": c.Mode, "entry": c.Entry, "massive": c.Massive, "writes": res.Writes, "bytes": len(cs.Doc)}
+	})
 }
 
 var c14Modes = []string{"text", "noiter", "json", "yaml", "toml", "dryrun"}
